@@ -3,5 +3,6 @@
 
 pub mod common;
 pub mod evidence;
+pub mod net;
 pub mod wire;
 pub mod props;
